@@ -31,10 +31,10 @@ def pinnedSkeleton : List (String × String) := [
   ("exeParser.readInline", "c937b7931829"),
   ("exeParser.readOp", "3f2c7946f8fe"),
   ("exeParser.readSelectionSet", "633413140d11"),
-  ("exeParser.readVarDef", "7bf2e9f96896"),
+  ("exeParser.readVarDef", "d6b69b1b20cb"),
   ("exeParser.readVarDefs", "007f8ff5b513"),
   ("parseExe", "b8364a668618"),
-  ("parseSDL", "14412feccfec"),
+  ("parseSDL", "5c0f8828856d"),
   ("parser.putBack", "53625e41ee42"),
   ("parser.readArgValue", "88c58bf573bb"),
   ("parser.readArgValues", "cdf8819b1f0b"),
